@@ -278,6 +278,17 @@ def run(ctx):
             ok_arg = (sym_arg(a0) or (None,))[0] == 0
             drops = [i for i in range(b.n) if b.term(i)["k"] == "drop" and b.term(i)["p"]["l"] == g and not b.term(i)["p"].get("pr")]
             normal = [d for d in drops if not b.blocks[d].get("cleanup")]
+            # an explicit `drop(guard)` ends the scope just like the implicit drop at the end of the block
+            def _moved_from(l_, depth=0):
+                if l_ == g:
+                    return True
+                ds_ = b.defs().get(l_, [])
+                if depth < 3 and len(ds_) == 1 and ds_[0][0] == "assign" and ds_[0][3]["rv"]["k"] == "use":
+                    src_ = ds_[0][3]["rv"]["a"].get("move") or {}
+                    return not src_.get("pr") and src_.get("l") is not None and _moved_from(src_["l"], depth + 1)
+                return False
+
+            normal += [c.bb for c in wl.body.calls() if c.is_("mem::drop") and c.args and (c.args[0].get("move") or {}).get("l") is not None and not (c.args[0].get("move") or {}).get("pr") and _moved_from(c.args[0]["move"]["l"]) and not b.blocks[c.bb].get("cleanup")]
             early = [d for d in normal if not b.dominates(fc.bb, d)]
             after = [d for d in normal if b.dominates(fc.bb, d)]
             # all return paths after f() pass through a drop of the guard
